@@ -666,3 +666,28 @@ T('c16i_signed_expiry_stamp_rebinds_local', ['C16'], _SENT,
 B('c16i_signed_expiry_sentinel_unchecked', ['C16'], 'R16.g', _SENT,
   (CK, _STAMP, _STAMP_SENT),
   (CK, _SAVE, "        save_cookie_kwargs['expires'] = expires\n        cookie.save_cookie(response, **save_cookie_kwargs)\n"))
+
+# ---------------------------------------------------------------- R16.b: unquote(quote(v)) is v, as far as the shape of the two pipelines goes
+_B64 = "        ret = b''.join(base64.b64encode(ret).splitlines()).strip()\n        return ret\n"
+_LOADS = "            value = cls.serialization_method.loads(value.decode('utf8'))\n"
+_B64D = "            value = base64.b64decode(value)\n"
+B('c16i_quote_truncates_payload', ['C16'], 'R16.b', (CK, _B64, _B64.replace('        return ret\n', '        return ret[:4093]  # browsers drop larger cookies\n')))
+B('c16i_quote_truncates_text', ['C16'], 'R16.b', (CK, _ENCODE, "        ret = ret.encode('utf8')[:3000]\n"))
+B('c16i_quote_serializes_text_of_value', ['C16'], 'R16.b', (CK, _DUMPS, "        ret = cls.serialization_method.dumps(str(value))\n"))
+B('c16i_quote_value_defaulted', ['C16'], 'R16.b', (CK, _DUMPS, "        value = value or ''\n" + _DUMPS))
+B('c16i_unquote_number_hook', ['C16'], 'R16.b',
+  (CK, 'import base64\n', 'import base64\nimport decimal\n'),
+  (CK, _LOADS, "            value = cls.serialization_method.loads(value.decode('utf8'), parse_float=decimal.Decimal)\n"))
+B('c16i_unquote_result_defaulted', ['C16'], 'R16.b', (CK, _UNQUOTE, _UNQUOTE.replace('        return value', '        return value or None')))
+B('c16i_unquote_result_wrapped', ['C16'], 'R16.b',
+  (CK, _UNQUOTE, "        try:\n            raw = base64.b64decode(value).decode('utf8')\n            loaded = cls.serialization_method.loads(raw)\n"
+                 "            if isinstance(loaded, list):\n                loaded = tuple(loaded)\n"
+                 "        except Exception:\n            raise UnquoteError()\n        return loaded"))
+B('c16i_unquote_skips_a_byte', ['C16'], 'R16.b', (CK, _B64D, "            value = base64.b64decode(value[1:])\n"))
+T('c16i_quote_layout_replace', ['C16'], (CK, _B64, "        return base64.b64encode(ret).replace(b'\\n', b'')\n"))
+T('c16i_quote_layout_named_pieces', ['C16'],
+  (CK, _B64, "        lines = base64.b64encode(ret).splitlines()\n        joined = b''.join(lines)\n        return joined.strip()\n"))
+T('c16i_unquote_loads_bytes', ['C16'],
+  (CK, _B64D + _LOADS, "            value = cls.serialization_method.loads(base64.b64decode(value))\n"))
+T('c16i_unquote_str_call', ['C16'],
+  (CK, _B64D + _LOADS, "            text = str(base64.b64decode(value), 'utf8')\n            value = cls.serialization_method.loads(text)\n"))
